@@ -294,6 +294,33 @@ def run(ck):
                              {"correspondence": "Cli.parse vs clap", "argv": ["az65"] + argv, "model": pred}, no_input=True)
         finally:
             shutil.rmtree(d, ignore_errors=True)
+    # ---- -I is honoured relative to the directory the command runs in, wherever the input file lives and however it is
+    # spelled (a same-named directory beside the input file is a decoy); bytes known by construction
+    for arch in asmk.ARCHES:
+        for filearg, incarg, pl in itertools.product(["src/main.asm", "./src/main.asm", "src/../src/main.asm"],
+                                                     [("-I", "lib"), ("--include", "lib"), ("-I", "./lib"), ("-I", "src/../lib")],
+                                                     ["before", "after", "between"]):
+            d = tempfile.mkdtemp(prefix="az65_c15_")
+            try:
+                for sub, body in (("src", None), ("lib", "@db $99\n"), ("src/lib", "@db $77\n")):
+                    os.makedirs(os.path.join(d, sub), exist_ok=True)
+                    if body:
+                        open(os.path.join(d, sub, "lib.inc"), "w").write(body)
+                open(os.path.join(d, "src", "main.asm"), "w").write(PROGS["ok_inc"][0])
+                argv = {"before": list(incarg) + [arch, filearg], "after": [arch, filearg] + list(incarg),
+                        "between": [arch] + list(incarg) + [filearg]}[pl]
+                p = subprocess.run([az] + argv, cwd=d, stdout=subprocess.PIPE, stderr=subprocess.PIPE, timeout=60)
+                ck.evaluations += 1
+                ck.nontriv("incdir:" + " ".join(argv))
+                ck.count("include-dir:rc=%s" % p.returncode)
+                if p.returncode != 0 or p.stdout != bytes([0x11, 0x99, 0x22]):
+                    ck.violation("`az65 %s` (lib/lib.inc holds $99, the decoy src/lib/lib.inc $77): exit %s, stdout %s, stderr %r" % (
+                        " ".join(argv), p.returncode, p.stdout.hex(), p.stderr.decode("utf8", "replace")[:120]),
+                        {"mode": "cli", "argv": ["az65"] + argv, "files": {"src/main.asm": PROGS["ok_inc"][0], "lib/lib.inc": "@db $99\n", "src/lib/lib.inc": "@db $77\n"},
+                         "expected": "exit 0, stdout 119922"})
+                    break
+            finally:
+                shutil.rmtree(d, ignore_errors=True)
     # ---- a destination that cannot take the bytes (a full device): the run fails, with a message, whatever the size
     # of the image and wherever it goes (the kernel's /dev/full accepts the open and fails every write)
     if os.path.exists("/dev/full"):
